@@ -2,3 +2,7 @@ import PyaModel.Core.Sig
 import PyaModel.Spec.CpyBind
 import PyaModel.Proofs.C05
 import PyaModel.Props.C05
+import PyaModel.Core.Sexp
+import PyaModel.Spec.WF
+import PyaModel.Generated.ClassTable
+import PyaModel.Props.C03
